@@ -373,7 +373,7 @@ fn arb_value() -> BoxedStrategy<Node> {
 
 fn key_variants(base: usize, variant: usize) -> Node {
     // the same key in different presentations; `base` selects the key identity
-    match base % 13 {
+    match base % 14 {
         0 => match variant % 3 {
             0 => s("a"),
             1 => Node::scalar("a", Style::Double),
@@ -428,6 +428,12 @@ fn key_variants(base: usize, variant: usize) -> Node {
             1 => Node::map(true, vec![(s("a"), s("1").tagged("!u"))]),
             _ => Node::map(true, vec![(s("a").tagged("!t"), s("1"))]),
         },
+        // ... and so is a tag on a mapping key itself (`{a: 1}` is identity 4)
+        13 => match variant % 3 {
+            0 => Node::map(true, vec![(s("a"), s("1"))]).tagged("!t"),
+            1 => Node::map(true, vec![(s("a"), s("1"))]).tagged("!u"),
+            _ => Node::map(true, vec![(s("a"), Node::scalar("1", Style::Double))]).tagged("!t"),
+        },
         7 => match variant % 3 {
             0 => Node::seq(true, vec![s("a"), s("b")]).tagged("!t"),
             1 => Node::seq(true, vec![s("a"), s("b")]).tagged("!u"),
@@ -447,10 +453,10 @@ fn make_case(es: Vec<(usize, usize, Node)>, lb: u32, target: Target, place: usiz
     let struct_keys = ["a", "b", "c", "k", "x", "y"];
     for (base, var, v) in es {
         // (the all-strings target cannot take the null key: the empty string stands in)
-        let base = if target == Target::ShapeStr && base % 13 == 8 { 9 } else { base };
+        let base = if target == Target::ShapeStr && base % 14 == 8 { 9 } else { base };
         // (`!!str` followed by nothing is the empty string for string targets; an untyped target
         // reads a null there - a matter of scalar interpretation, not of key identity)
-        let var = if target != Target::ShapeStr && base % 13 == 10 && var % 3 == 0 { 1 } else { var };
+        let var = if target != Target::ShapeStr && base % 14 == 10 && var % 3 == 0 { 1 } else { var };
         let k = if target == Target::Struct { s(struct_keys[base % 3]) } else { key_variants(base, var) };
         entries.push((k, v));
     }
@@ -533,7 +539,16 @@ impl Property for C04 {
         // open finding: the first repeated key is an alias token
         match gdoc::expand_aliases(&c.doc) {
             Ok(e) if matches!(first_duplicate(&c.doc, &e), Some((_, Where::AliasKey))) => vec!["repeated_alias_key"],
-            _ => vec![],
+            _ => {
+                // open finding: the tag of a *mapping* used as a key is not part of the key
+                let mut tagged_map_key = false;
+                c.doc.visit(&mut |n| {
+                    if let Kind::Map { entries, .. } = &n.kind {
+                        tagged_map_key |= entries.iter().any(|(k, _)| k.tag.is_some() && matches!(k.kind, Kind::Map { .. }));
+                    }
+                });
+                if tagged_map_key { vec!["tagged_mapping_key"] } else { vec![] }
+            }
         }
     }
     fn shrink(c: &Case) -> Vec<Case> {
@@ -567,7 +582,7 @@ impl Property for C04 {
         let n = 1 + b.below(6);
         let es: Vec<(usize, usize, Node)> = (0..n)
             .map(|_| {
-                let base = b.below(13);
+                let base = b.below(14);
                 let var = b.below(3);
                 let v = match b.below(9) {
                     0..=3 => gdoc::scalar_from_bytes(&mut b),
@@ -635,7 +650,7 @@ impl Property for C04 {
         ctx.subspace("mappings with <= 4 entries x 2 key identities x 3 key kinds x 3 value shapes x 3 placements x block/flow", total, true);
 
         // ---------------- random: mixed key presentations, aliases, nested
-        let entry = (0usize..13, 0usize..3, arb_value());
+        let entry = (0usize..14, 0usize..3, arb_value());
         let strat = (
             prop::collection::vec(entry, 1..7),
             any::<bool>(),
